@@ -194,10 +194,10 @@ def run(tier, seed):
     fails = []
     quick = tier == "quick"
     # (1) in-process, rapidcheck
-    budget = {"roundtrip": 30000, "bwt": 30000, "collect": 150000, "prefix": 3000, "scan": 150000, "decode_valid": 10000,
-              "decode_defect": 5000, "decode_raw": 60000, "decode_sym": 32000}
+    budget = {"roundtrip": 12000, "bwt": 10000, "collect": 60000, "prefix": 1500, "scan": 60000, "decode_valid": 5000,
+              "decode_defect": 2000, "decode_raw": 25000, "decode_sym": 20000}
     for prop, n in budget.items():
-        res = _inproc.run_target(prop, seed + 40, n if quick else n * 60)
+        res = _inproc.run_target(prop, seed + 40, n if quick else n * 25)
         _inproc.merge_into(stats, res, "inproc:%s:" % prop)
         for i in range(res["nontrivial"]):
             stats.nontrivial.add(("inproc", prop, i))
@@ -212,7 +212,7 @@ def run(tier, seed):
                 with open(os.path.join(sd, "s%03d" % k), "wb") as o:
                     o.write(bytes([0, 0, 0, 0, 0, 0]) + z)       # schedule prefix + raw mode 0
                 k += 1
-        for prop, secs in (("decode_raw", 40 if quick else 1500), ("roundtrip", 25 if quick else 900)):
+        for prop, secs in (("decode_raw", 25 if quick else 600), ("roundtrip", 15 if quick else 300)):
             fz = _inproc.fuzz(prop, seed, runs=100000000, max_len=3000, seeds_dir=sd if prop == "decode_raw" else None,
                               max_total_time=secs)
             stats.evaluations += fz["execs"]
@@ -225,7 +225,7 @@ def run(tier, seed):
     # (3) process level
     exes = core.build_many(["rel", "asan", "msan"])
     files = corpus.build(exes["rel"], seed, 6 if quick else 30)
-    s3, f3 = core.hyp_search(proc_strategy(len(files)), make_proc_eval(exes, files), 500 if quick else 20000, seed,
+    s3, f3 = core.hyp_search(proc_strategy(len(files)), make_proc_eval(exes, files), 300 if quick else 5000, seed,
                              shrink=True)
     for f in f3:
         f["seed"] = seed
